@@ -193,7 +193,7 @@ fn gen_cases(cfg: &Cfg) -> Vec<Case> {
             }
         }
     }
-    let n = cfg.tier.pick(4_000u64, 150_000);
+    let n = cfg.tier.pick(4_000u64, 1_500_000);
     for i in 0..n {
         let mut r = Rng::for_case(cfg.seed, "C13", i);
         let nk = 1 + r.usize(4);
